@@ -14,8 +14,13 @@ TQuery == Ev.op = "query"
 TLimit == Ev.op = "limit"
             /\ Ev.ok = LimitAccept(Ev.n)
             /\ (Ev.ok => (Ev.val = LimitValue(Ev.n, Ev.deflt) /\ Ev.val >= 1 /\ Ev.val <= 100))
+\* the command line applies the same rule however the search is started: nothing is listed for a rejected limit, at most
+\* the limit in force otherwise
+TCLimit == Ev.op = "climit"
+            /\ (LimitAccept(Ev.n) => (Ev.printed >= 1 /\ Ev.printed <= LimitValue(Ev.n, Ev.deflt)))
+            /\ (~LimitAccept(Ev.n) => Ev.printed = 0)
 TraceInit == l = 1
-TraceNext == l <= Len(Trace) /\ l' = l + 1 /\ (TQuery \/ TLimit)
+TraceNext == l <= Len(Trace) /\ l' = l + 1 /\ (TQuery \/ TLimit \/ TCLimit)
 TraceSpec == TraceInit /\ [][TraceNext]_l
 TraceAccepted ==
     LET d == TLCGet("stats").diameter IN
